@@ -454,6 +454,18 @@ pub fn c14_invocations(thorough: bool) -> Vec<Inv> {
                     }
                 }
             }
+            // large invocations: 20 listed nodes as chain / cycle / fan-out / fan-in / one long list
+            {
+                let n = 20u8;
+                let chain: Vec<(u8, Option<Vec<u8>>)> = (0..n).map(|k| (k, if k + 1 < n { Some(vec![k + 1]) } else { None })).collect();
+                let cycle: Vec<(u8, Option<Vec<u8>>)> = (0..n).map(|k| (k, Some(vec![(k + 1) % n]))).collect();
+                let fan: Vec<(u8, Option<Vec<u8>>)> = (0..n).map(|k| (k, if k == 0 { Some((1..n).collect()) } else { Some(vec![]) })).collect();
+                let fan_in: Vec<(u8, Option<Vec<u8>>)> = (0..n).rev().map(|k| (k, if k != 0 { Some(vec![0]) } else { None })).collect();
+                let long: Vec<(u8, Option<Vec<u8>>)> = (0..n).map(|k| (k, if k == 10 { Some((0..n).chain((0..n).rev()).collect()) } else { None })).collect();
+                for nodes in [chain, cycle, fan, fan_in, long] {
+                    out.push(Inv { mac, form, nodes });
+                }
+            }
             // an edge naming an unlisted key (7), at every position of a short list
             for n in 1..=2u8 {
                 let keys: Vec<u8> = (0..n).collect();
